@@ -5,9 +5,13 @@ From V.C07 Require Import Model Spec Proofs.
 Local Arguments chain_fuel : simpl never.
 
 Definition arrow_path (p : path) : bool :=
-  match p with PArrowRead | PArrowWrite | PDynRead | PDynWrite => true | _ => false end.
+  match p with
+  | PArrowRead | PArrowWrite | PDynRead | PDynWrite | PUnset | PRefArg | PForeach | PNestedAppend => true
+  | _ => false
+  end.
 Definition call_path (p : path) : bool := match p with PCall | PDynCall => true | _ => false end.
-Definition index_path (p : path) : bool := match p with PIndexRead | PIndexWrite => true | _ => false end.
+Definition index_path (p : path) : bool :=
+  match p with PIndexRead | PIndexWrite | PThisIndexRead | PThisIndexWrite => true | _ => false end.
 Definition this_prop_path (p : path) : bool := match p with PThisRead | PThisWrite => true | _ => false end.
 
 Lemma wf_parts t : wf t = true -> closed t = true /\ acyclic t = true.
